@@ -125,6 +125,7 @@ fn default_traffic(rng: &mut Rng, total: usize, max_len: usize, stop_ns: u64) ->
         amb_reliable: rng.chance(0.5),
         extra_flushes: *rng.pick(&[0u64, 0, 1, 3]),
         probes_after_ns: None,
+        script: Vec::new(),
     }
 }
 
@@ -231,6 +232,52 @@ pub fn gen_frag_twin(seed: u64, params: &Params) -> Scenario {
     s.traffic[0].len_class = *rng.pick(&[LenClass::Boundary, LenClass::Large]);
     s.traffic[0].max_len = s.traffic[0].max_len.max(4000);
     s
+}
+
+/// C04: one packet of an exact length (the driver sweeps every length 0..=4*1448+2, then samples
+/// larger ones), fragments duplicated / reordered / partially lost and resent.
+pub fn gen_frag_len(seed: u64, len: usize) -> Scenario {
+    use crate::model::Mode;
+    let mut rng = Rng::new(seed);
+    let mode = *rng.pick(&[Mode::Reliable, Mode::Persistent, Mode::Unreliable, Mode::TimeSensitive]);
+    let mode = if len < 4 && mode == Mode::TimeSensitive { Mode::Unreliable } else { mode };
+    let resends = mode.resends();
+    let fault_ns = rng.range(1, 5) * SEC;
+    let mut phase = LinkPhase::clean(fault_ns);
+    phase.dup = *rng.pick(&[0.0, 0.3, 0.8]);
+    if resends {
+        phase.loss = *rng.pick(&[0.0, 0.2, 0.5]);
+        phase.reorder = *rng.pick(&[0.0, 0.3, 0.8]);
+        phase.reorder_max_ms = rng.range(1, 80);
+    }
+    let rx_alloc = len.max(1) + rng.below(3000) as usize;
+    let chan = rng.below(64) as u8;
+    let mut t0 = default_traffic(&mut rng, 1, rx_alloc, fault_ns + SEC);
+    t0.channels = vec![chan];
+    t0.script = vec![(chan, mode, len)];
+    t0.amb_reliable = mode == Mode::Reliable;
+    t0.extra_flushes = rng.below(3);
+    let t1 = silent_traffic(&mut rng);
+    let mut back = LinkPhase::clean(fault_ns);
+    if resends {
+        back.loss = *rng.pick(&[0.0, 0.3]);
+    }
+    Scenario {
+        seed,
+        window: *rng.pick(&[4u32, 64, 4096]),
+        cfg: [
+            SideCfg { nonce: pick_nonce(&mut rng, 64), max_send_rate: *rng.pick(&[3000u32, 20_000, 200_000, 10_000_000]), max_receive_rate: u32::MAX, rx_alloc: 4000, keepalive: Some(5000) },
+            SideCfg { nonce: pick_nonce(&mut rng, 64), max_send_rate: 1_000_000, max_receive_rate: u32::MAX, rx_alloc, keepalive: Some(5000) },
+        ],
+        link: [Link { latency_ms: rng.range(0, 60), phases: vec![phase] }, Link { latency_ms: rng.range(0, 60), phases: vec![back] }],
+        cadence: [pick_cadence(&mut rng), pick_cadence(&mut rng)],
+        pauses: [Vec::new(), Vec::new()],
+        traffic: [t0, t1],
+        horizon_ns: 6 * 3600 * SEC,
+        ideal: false,
+        max_steps: 3_000_000,
+        pinned_window_s: 14400,
+    }
 }
 
 /// C02: arbitrary fault prefix (incl. blackouts, one-way loss, only-ack loss, pauses) then fair.
@@ -482,6 +529,32 @@ pub fn run_family(family: &str, scn_seed: u64, idx: u64, params: &Params, out: &
                 _ => c.get("max_outstanding_alloc") > 0 && delivered >= 5,
             };
             let nontrivial = prop_rule(params.get("prop"), &o).unwrap_or(nontrivial);
+            finish_out(out, &scn, o, nontrivial, sample);
+            true
+        }
+        "frag-len" => {
+            // idx 0..=5794 sweeps every length exhaustively; larger idx sample lengths up to 1 MB
+            let len = if idx <= 4 * MAX_FRAGMENT_SIZE as u64 + 2 {
+                idx as usize
+            } else {
+                let mut r = Rng::new(scn_seed ^ 0x1e9);
+                match r.below(3) {
+                    0 => (r.range(5, 40) as usize * MAX_FRAGMENT_SIZE + r.below(5) as usize).saturating_sub(2),
+                    1 => r.log_range(5795, 1_000_000) as usize,
+                    _ => *r.pick(&[65_536usize, 100_000, 1_000_000, 144_800, 1448 * 64, 1448 * 64 + 1]),
+                }
+            };
+            let scn = gen_frag_len(scn_seed, len);
+            let o = Sim::new(&scn, TwinMode::None, false, verbose).run();
+            let mut o = o;
+            let delivered = o.c.get("deliveries");
+            if o.quiescent && delivered != 1 {
+                let (m, _) = (scn.traffic[0].script[0].1, 0);
+                o.violations.push(Violation::new("C04", "packet-not-reassembled", "C04:packet-not-reassembled", format!("a single {} packet of {} bytes was delivered {} times although every fragment reached the receiver (mode {}: loss only with retransmission)", m.name(), len, delivered, m.name())));
+            }
+            let nfrag = (len + MAX_FRAGMENT_SIZE - 1) / MAX_FRAGMENT_SIZE;
+            let nontrivial = delivered == 1 && (nfrag >= 2 && (o.c.get("fate_dup") + o.c.get("fate_delay") + o.c.get("fate_drop") >= 1) || len <= 4 * MAX_FRAGMENT_SIZE + 2);
+            out.counters.inc(if nfrag >= 2 { "single_packet_multifrag" } else { "single_packet_onefrag" });
             finish_out(out, &scn, o, nontrivial, sample);
             true
         }
